@@ -42,6 +42,15 @@ pub fn format_expressions_single(ctx: &Context, expressions: &Punctuated<Express
             assert(expr_sig(r) =~= expr_sig(*expressions)); }
     r
 }
+pub fn format_expressions_multi_hang(ctx: &Context, expressions: &Punctuated<Expression>, shape: Shape, hang_level: Option<usize>) -> (r: Punctuated<Expression>)
+    requires exprs_wf(*expressions), ensures ppairs(r).len() == ppairs(*expressions).len(), expr_sig(r) == expr_sig(*expressions)
+{
+    proof { assert forall|i: int, s: Shape| 0 <= i < ppairs(*expressions).len() implies #[trigger] call_requires(format_expression, (ctx, &pair_value(ppairs(*expressions)[i]), s)) by { } }
+    let r = format_punctuated_multiline(ctx, expressions, shape, format_expression, hang_level);
+    proof { assert forall|i: int| 0 <= i < ppairs(r).len() implies erase(skel(pair_value(#[trigger] ppairs(r)[i]))) == erase(skel(pair_value(ppairs(*expressions)[i]))) by { assert(by_item_formatter_modulo_trivia(format_expression, ctx, pair_value(ppairs(*expressions)[i]), pair_value(ppairs(r)[i]))); }
+            assert(expr_sig(r) =~= expr_sig(*expressions)); }
+    r
+}
 pub fn format_expressions_multi(ctx: &Context, expressions: &Punctuated<Expression>, shape: Shape) -> (r: Punctuated<Expression>)
     requires exprs_wf(*expressions), ensures ppairs(r).len() == ppairs(*expressions).len(), expr_sig(r) == expr_sig(*expressions)
 {
@@ -87,7 +96,8 @@ REHANG_INV = """
             pk_rest(&vx_b).len() == ppairs(*expressions).len() - k,
             forall|j: int| 0 <= j < pk_rest(&vx_b).len() ==> *(#[trigger] pk_rest(&vx_b)[j]) == pair_value(ppairs(*expressions)[k + j]),
             exprs_wf(*expressions), expr_sig(multiline_expr0) == expr_sig(*expressions),
-            ppairs(output_expr).len() == k, idx == k, ppairs(*expressions).len() <= usize::MAX,
+            idx == k, ppairs(*expressions).len() <= usize::MAX,
+            ppairs(output_expr).len() == k, //# C02.assignment_rehang_loop
             forall|i: int| 0 <= i < k ==> erase(skel(pair_value(#[trigger] ppairs(output_expr)[i]))) == erase(skel(pair_value(ppairs(*expressions)[i]))), //# C02.assignment_rehang_loop
         ensures k == ppairs(*expressions).len(),
         decreases pk_rest(&vx_a).len(),
@@ -353,11 +363,66 @@ pub fn format_names(ctx: &Context, names: &Punctuated<TokenReference>, shape: Sh
             Between("let singleline_shape = shape\n            + (strip_leading_trivia(&name_list).to_string().len()", "+ strip_trailing_trivia(&expr_list).to_string().len());", "let singleline_shape = shape + hole_usize();", why="Display widths"),
             Between("let shape = shape\n                + (strip_leading_trivia(&name_list).to_string().len()", "+ type_specifier_len);", "let shape = shape + hole_usize();", why="Display widths"),
         ]),
+        # ---- return ----
+        Raw(node_specs("Return", "n_ret", [("token", "TokenReference", "-"), ("returns", "Punctuated<Expression>", "ref")]) + """
+pub assume_specification [Return::new] () -> (r: Return) ensures ppairs(n_ret_returns(&r)).len() == 0;
+impl HasInlineComments for Expression { #[verifier::external_body] fn has_inline_comments(&self) -> bool { unimplemented!() } }
+""", module="formatters::block"),
+        Fn("src/formatters/block.rs", "is_function_or_table_constructor", mode="stub"),
+        Fn("src/formatters/block.rs", "format_return", contract="""
+    requires exprs_wf(n_ret_returns(return_node)),
+    ensures ppairs(n_ret_returns(&r)).len() == ppairs(n_ret_returns(return_node)).len(), //# C02.return_values_same
+            expr_sig(n_ret_returns(&r)) == expr_sig(n_ret_returns(return_node)), //# C02.return_values_same
+""", edits=[
+            Hole('const RETURN_LEN: usize = "return ".len();', "let RETURN_LEN: usize = hole_usize();", why="str::len in a const: a width"),
+            Hole("trivia_util::punctuated_inline_comments(returns, true)", "hole_bool()", why="iterator over the list looking for comments: chooses the layout only"),
+            Hole("returns.iter().all(is_function_or_table_constructor)", "hole_bool()", why="iterator: are all values functions or tables (layout only)"),
+            Hole("(true, Punctuated::new())", "(true, format_expressions_single(ctx, returns, shape))", kind="rewrite", why="the placeholder of the comment path (`it will never be used`) is replaced by the one-line candidate: the proof then needs no argument about the placeholder staying unused; the value chosen below is the same on every path that the real code takes"),
+            Hole("format_punctuated(ctx, returns, shape, format_expression),\n                )", "format_expressions_single(ctx, returns, shape),\n                )", kind="wrapper", why="generic list formatter with format_expression: verified wrapper"),
+            Hole("format_punctuated(ctx, returns, shape.with_infinite_width(), format_expression);", "format_expressions_single(ctx, returns, shape.with_infinite_width());", kind="wrapper", why="generic list formatter with format_expression: verified wrapper"),
+            Hole("shape + strip_trailing_trivia(&singleline_returns).to_string().len();", "shape + hole_usize();", why="Display width of the list"),
+            Between("|| returns\n                .iter()\n                .next()\n                .unwrap()", ".has_leading_comments(CommentSearch::Single);", "|| first_expression(returns).has_leading_comments(CommentSearch::Single);", kind="wrapper", why="Punctuated::iter().next().unwrap()"),
+            Hole("format_punctuated_multiline(ctx, returns, shape, format_expression, hang_level);", "format_expressions_multi_hang(ctx, returns, shape, hang_level);", kind="wrapper", why="generic list formatter with format_expression: verified wrapper"),
+            Hole("""for (idx, (mut formatted, original)) in
+                    multiline_returns.into_pairs().zip(returns).enumerate()
+                {""", """let ghost multiline_returns0 = multiline_returns; let ghost mut k: int = 0;
+                let mut vx_a = peekable(multiline_returns.into_pairs());
+                let mut vx_b = peekable(returns.iter());
+                let mut idx: usize = 0;
+                while let Some(vx_formatted) = vx_a.next() {
+                    let mut formatted = vx_formatted;
+                    let original = match vx_b.next() { Some(vx_o) => vx_o, None => { break; } };""", kind="desugar", why="`a.into_pairs().zip(b).enumerate()` written as what it stands for: two iterators advanced together (the first one first) and a counter"),
+            Hole("hang_level.map_or(shape, |hang_level| {\n                            shape.with_indent(shape.indent().add_indent_level(hang_level))\n                        })", "match hang_level { Some(hang_level) => shape.with_indent(shape.indent().add_indent_level(hang_level)), None => shape }", kind="rewrite", why="Option::map_or with a closure, written as the match it is (layout only)"),
+            Hole("formatted.value().has_inline_comments()", "hole_bool()", why="trivia_util::HasInlineComments: chooses the layout only"),
+            Hole(".take_first_line(&strip_leading_trivia(formatted.value()))", ".take_first_line(formatted.value())", why="strip_leading_trivia only affects the measured width"),
+            Hole("formatted = formatted.map(|_| {\n                            let expression =", "formatted = formatted.map(|vx_unused: Expression| -> (vx_r: Expression) requires wf(skel(*original)) ensures erase(skel(vx_r)) == erase(skel(*original)) {\n                            let expression =", kind="rewrite", why="the closure gets a contract; `_` is named"),
+            Between("let leading_comments = leading_comments\n                            .iter()", ".collect();", "let leading_comments = hole_vec_token();", why="iterator chain: the comments in front of the first value, each on its own line (comment handling: C03)"),
+            Hole("formatted = formatted.map(|_| {\n                            first_return_expression", "formatted = formatted.map(|vx_unused: Expression| -> (vx_r: Expression) ensures erase(skel(vx_r)) == erase(skel(first_return_expression)) {\n                            first_return_expression", kind="rewrite", why="the closure gets a contract; `_` is named"),
+            Loop("while let Some(vx_formatted) = vx_a.next()", """
+        invariant
+            0 <= k <= ppairs(*returns).len(),
+            pk_rest(&vx_a).len() == ppairs(multiline_returns0).len() - k, ppairs(multiline_returns0).len() == ppairs(*returns).len(),
+            forall|j: int| 0 <= j < pk_rest(&vx_a).len() ==> #[trigger] pk_rest(&vx_a)[j] == ppairs(multiline_returns0)[k + j],
+            pk_rest(&vx_b).len() == ppairs(*returns).len() - k,
+            forall|j: int| 0 <= j < pk_rest(&vx_b).len() ==> *(#[trigger] pk_rest(&vx_b)[j]) == pair_value(ppairs(*returns)[k + j]),
+            exprs_wf(*returns), expr_sig(multiline_returns0) == expr_sig(*returns),
+            idx == k, ppairs(*returns).len() <= usize::MAX,
+            ppairs(output_returns).len() == k, //# C02.return_rehang_loop
+            forall|i: int| 0 <= i < k ==> erase(skel(pair_value(#[trigger] ppairs(output_returns)[i]))) == erase(skel(pair_value(ppairs(*returns)[i]))), //# C02.return_rehang_loop
+        ensures k == ppairs(*returns).len(),
+        decreases pk_rest(&vx_a).len(),
+""", step="idx = idx + 1; proof { k = k + 1; }", enter="proof { assert(expr_sig(multiline_returns0)[k] == expr_sig(*returns)[k]); assert(wf(skel(pair_value(ppairs(*returns)[k])))); }"),
+            Hole(".take_first_line(&strip_trivia(&hanging_returns))", ".take_first_line(&hanging_returns)", why="strip_trivia only affects the measured width"),
+            Hole("shape.take_first_line(&strip_trailing_trivia(&formatted_returns));", "shape.take_first_line(&formatted_returns);", why="strip_trailing_trivia only affects the measured width"),
+            Hole("let formatted_returns = format_punctuated(ctx, returns, shape, format_expression);", "let formatted_returns = format_expressions_single(ctx, returns, shape);", kind="wrapper", why="generic list formatter with format_expression: verified wrapper"),
+        ]),
     ]
     return its
 
 LABELS = {
     "C02.local_assignment_same": dict(props=["C02"], text="format_local_assignment_no_trivia / format_local_no_assignment: the same names and the same values, in order; an `=` exactly when there are values"),
+    "C02.return_values_same": dict(props=["C02"], text="format_return: whichever layout wins, as many values as the input, value i the input's value i modulo redundant parentheses"),
+    "C02.return_rehang_loop": dict(props=["C02"], text="format_return, one value per line: every value pushed so far — kept as formatted, hung again from the original expression, or given the comments that stood behind `return` — is the input's value in the same place"),
     "C02.assignment_same": dict(props=["C02"], text="format_assignment_no_trivia: the same variables and the same values, in order, whichever layout is chosen"),
     "C02.assignment_values_same": dict(props=["C02"], text="attempt_assignment_tactics: whichever layout tactic wins, the list has as many values as the input, value i is the input's value i modulo redundant parentheses, and the `=` token is the `=`"),
     "C02.assignment_rehang_loop": dict(props=["C02"], text="attempt_assignment_tactics, one value per line: every value pushed so far — kept as formatted, or hung again from the original expression — is the input's value in the same place"),
